@@ -248,6 +248,8 @@ class LazyList:
                 vy_print(" | " if ctx.vyxal_lists else ", ", "", ctx=ctx)
         except StopIteration:
             vy_print(" ⟩" if ctx.vyxal_lists else "]", end, ctx=ctx)
+        finally:
+            ctx.stacks.pop()
 
     @lazylist
     def reversed(self):
